@@ -258,14 +258,15 @@ func TestVerifC13Leaks(t *testing.T) {
 	}
 	vRun(t, "C13.leaks", func(tier string) int {
 		if tier == "thorough" {
-			return len(enum) + 6000
+			return 4*len(enum) + 40000
 		}
 		return 2000
 	}, func(c *vCase) {
 		var life c13Life
 		enumerated := false
-		if c.Tier == "thorough" && c.Idx < len(enum) {
-			life, enumerated = enum[c.Idx], true
+		if c.Tier == "thorough" && c.Idx < 4*len(enum) {
+			// (four passes: who dials, the mesh membership and the timing inside the respawn window are drawn anew each time)
+			life, enumerated = enum[c.Idx%len(enum)], true
 			life.dial = c.Chance(0.5)
 			life.grafted = c.Chance(0.5)
 		} else if c.Tier != "thorough" && c.Idx < 1000 {
